@@ -132,6 +132,17 @@ class OptimizerModule:
 
         """
 
+        def contains_tensor(state: Any) -> bool:
+            if isinstance(state, torch.Tensor):
+                return True
+            if isinstance(state, OptimizerModule):
+                return contains_tensor(state.__dict__)
+            if isinstance(state, dict):
+                return any(contains_tensor(value) for value in state.values())
+            if isinstance(state, (list, tuple, set)):
+                return any(contains_tensor(value) for value in state)
+            return False
+
         def load_from_new_state_to_old_state(
             old_state: StateDict, new_state: StateDict
         ) -> StateDict:
@@ -150,6 +161,16 @@ class OptimizerModule:
                         f"Both old state {old_state} and new_state {new_state} must be dicts! Continuing..."
                     )
                     return old_state
+                # Non-tensor objects are not stored by default, but every tensor the old state holds must be loaded.
+                missing_keys = [
+                    key
+                    for key, old_value in old_state.items()
+                    if key not in new_state and contains_tensor(old_value)
+                ]
+                if missing_keys:
+                    raise KeyError(
+                        f"Keys {missing_keys} holding tensors are missing in the state dict to load!"
+                    )
                 old_state |= {
                     key: load_from_new_state_to_old_state(
                         old_state=old_value,
